@@ -276,3 +276,68 @@ for K in (BitVector, Unsigned, Signed):
             c.interp_flags = {"abstract_type_creation": True}
             c.setup = lambda it, ctx, args, env, K=K, hit=hit: install_cache(it, K, hit, lambda key, K=K: SCls(K, width=key[1]))
             con.cases.append(c)
+
+
+# ---- a type that already HAS its parameters cannot be parametrised again ---------------------------------------------------
+# `BitVector[37][23]` would be created as a subclass of BitVector[37] and stored in the shared cache under the key of BitVector[23]:
+# from then on unrelated widths are subclasses of each other (the lattice depends on the order of first use).  Rejected.
+def _reparam_spec(sx, cls, size):
+    sx.reject(AssertionError)
+
+
+for K in (BitVector, Unsigned, Signed):
+    c = Case(f"{K.__name__}-already-parametrised", [Const(K[5], f"cohdl.{K.__name__}[5]"), PyInt("n", None, None, 1, 9)], _reparam_spec)
+    c.native = False
+    c.interp_flags = {"abstract_type_creation": True}
+
+    def _setup_reparam(it, ctx, args, env, K=K):
+        gd = install_cache(it, K, False, lambda key, K=K: SCls(K, width=key[1]))
+        it.ctx.attr_overlay[(id(K[5]), "_SubTypes")] = (K[5], gd)  # the parametrised class sees the cache of its family
+
+    c.setup = _setup_reparam
+    c.custom_replay = "contracts.c13_types.replay_reparametrised"
+    con.cases.append(c)
+
+from cohdl._core._array import _MetaArray  # noqa: E402
+
+
+def _array_spec(sx, cls, slice):
+    def holds(res):
+        created = [e[1] for e in sx.it.ctx.events if e[0] == "type"]
+        return len(created) == 1 and res is created[0] and len(res.bases) == 1 and res.bases[0] is Array and res.ns.get("_elemtype_") is Bit and res.ns.get("_count_") == 3
+
+    return C.Pred(holds, "a new class derived from Array with element type and count")
+
+
+C.inline("cohdl._core._primitive_type:is_primitive_type")
+con_arr = contract("cohdl._core._array:_MetaArray.__getitem__", PROPS)
+c = Case("Array-miss", [Const(Array, "cohdl.Array"), Const((Bit, 3), "(Bit, 3)")], _array_spec)
+c.native = False
+c.interp_flags = {"abstract_type_creation": True}
+c.setup = lambda it, ctx, args, env: install_cache(it, Array, False, lambda key: SCls(Array, elemtype=key[0], count=key[1]))
+con_arr.cases.append(c)
+c = Case("Array-already-parametrised", [Const(Array[Bit, 7], "cohdl.Array[Bit, 7]"), Const((Bit, 5), "(Bit, 5)")], _reparam_spec)
+c.native = False
+c.interp_flags = {"abstract_type_creation": True}
+c.setup = lambda it, ctx, args, env: install_cache(it, Array, False, lambda key: SCls(Array, elemtype=key[0], count=key[1]))
+c.custom_replay = "contracts.c13_types.replay_reparametrised"
+con_arr.cases.append(c)
+
+_REPARAM_SCRIPT = '''
+from cohdl import BitVector, Unsigned, Array, Bit
+out = []
+for what, f in (("BitVector[37][23]", lambda: BitVector[37][23]), ("Unsigned[41][19]", lambda: Unsigned[41][19]), ("Array[Bit, 7][Bit, 5]", lambda: Array[Bit, 7][Bit, 5])):
+    try:
+        f()
+        out.append(what + " accepted")
+    except AssertionError:
+        pass
+print("POISONED" if issubclass(BitVector[23], BitVector[37]) or issubclass(Array[Bit, 5], Array[Bit, 7]) else "CLEAN", out)
+'''
+
+
+def replay_reparametrised(payload):
+    from contracts.c06_extra import _run_design
+
+    rc, out = _run_design(_REPARAM_SCRIPT)
+    return {"reproduced": rc == 0 and "POISONED" in out, "detail": "parametrising a parametrised primitive type before the first regular use of the second parameter: " + out[-200:]}
